@@ -349,4 +349,144 @@ theorem segUpdate_spec' (cplx : Bool) (lsub : Array Nat) (g : Seg) (lusup dense 
     · rw [if_neg h3]
       exact segN_spec' cplx lsub g lusup dense tempv z ok (htv (by omega)) (htz (by omega)) hz
 
+/-! ### the loop over the segments and the tail -/
+
+theorem SegOK.of_size {lsub : Array Nat} {g : Seg} {d d' : Array K} (ok : SegOK lsub g d) (h : d'.size = d.size) :
+    SegOK lsub g d' :=
+  ⟨ok.hg1, ok.hg2, ok.hpos, ok.hinj, fun t ht => by rw [h]; exact ok.hrow t ht⟩
+
+/-- what one iteration of the segment loop does to the state (the conclusion of `colBmod_segment_spec`;
+a representative of `jcol`'s own supernode leaves the state as it is) -/
+def SegStep (jcol fpanelc : Nat) (xsup supno lsub xlsub repfnz : Array Nat) (krep : Nat) (st o : SnodeSt K) : Prop :=
+  if supno[jcol]! = supno[krep]! then o = st else
+  let g := segGeom fpanelc xsup supno xlsub st.xlusup repfnz krep
+  let base := g.luptr + (g.nsupr * g.noZeros + g.noZeros)
+  let row := fun t => lsub[g.lptr + g.noZeros + t]!
+  let u := fwdSub (fun i r => st.lusup[base + (r * g.nsupr + i)]!) (fun _ => 1) (fun t => st.dense[row t]!) g.segsze
+  o.dense.size = st.dense.size ∧
+  (∀ s, s < g.segsze → o.dense[row s]! = u.getD s 0) ∧
+  (∀ i, i < g.nrow → o.dense[row (g.segsze + i)]! =
+    st.dense[row (g.segsze + i)]! - ∑ q ∈ range g.segsze, st.lusup[base + (q * g.nsupr + (g.segsze + i))]! * u.getD q 0) ∧
+  (∀ p, (∀ t, t < g.segsze + g.nrow → row t ≠ p) → o.dense[p]! = st.dense[p]!) ∧
+  o.tempv.size = st.tempv.size ∧ (∀ p : Nat, o.tempv[p]! = st.tempv[p]!) ∧
+  o.lusup = st.lusup ∧ o.xlusup = st.xlusup
+
+/-- the hypotheses `colBmod_segment_spec` needs for the representative `krep` in the state `st` -/
+def SegHyp (jcol fpanelc : Nat) (xsup supno lsub xlsub repfnz : Array Nat) (krep : Nat) (st : SnodeSt K) : Prop :=
+  supno[jcol]! ≠ supno[krep]! →
+    SegOK lsub (segGeom fpanelc xsup supno xlsub st.xlusup repfnz krep) st.dense ∧
+    (4 ≤ (segGeom fpanelc xsup supno xlsub st.xlusup repfnz krep).segsze →
+      (segGeom fpanelc xsup supno xlsub st.xlusup repfnz krep).segsze + (segGeom fpanelc xsup supno xlsub st.xlusup repfnz krep).nrow
+        ≤ st.tempv.size ∧
+      ∀ i, i < (segGeom fpanelc xsup supno xlsub st.xlusup repfnz krep).segsze +
+        (segGeom fpanelc xsup supno xlsub st.xlusup repfnz krep).nrow → st.tempv[i]! = 0)
+
+theorem colSegment_step (cplx segOps : Bool) (jcol fpanelc : Nat) (xsup supno lsub xlsub repfnz : Array Nat)
+    (krep : Nat) (st : SnodeSt K) (H : SegHyp jcol fpanelc xsup supno lsub xlsub repfnz krep st) :
+    SegStep jcol fpanelc xsup supno lsub xlsub repfnz krep st
+      (colSegment cplx segOps jcol fpanelc xsup supno lsub xlsub repfnz krep st) := by
+  unfold SegStep
+  by_cases he : supno[jcol]! = supno[krep]!
+  · rw [if_pos he]; unfold colSegment; rw [if_neg (by simpa using he)]
+  rw [if_neg he]
+  obtain ⟨ok, htvz⟩ := H he
+  intro g base row u
+  have hz : ∀ s, s < g.segsze → (fun t => u.getD t 0) s = st.dense[lsub[g.lptr + g.noZeros + s]!]! -
+      ∑ q ∈ range s, (fun t => u.getD t 0) q * st.lusup[g.luptr + (g.nsupr * g.noZeros + g.noZeros) + (q * g.nsupr + s)]! := by
+    intro s hs
+    show u.getD s 0 = _
+    rw [fwd_rec _ _ _ g.segsze s hs, div_one]
+    congr 1
+    exact Finset.sum_congr rfl (fun j _ => mul_comm _ _)
+  obtain ⟨⟨p1, p2, p3, p4⟩, t1, t2⟩ := segUpdate_spec' cplx lsub g st.lusup st.dense st.tempv (fun t => u.getD t 0) ok
+    (fun h => (htvz h).1) (fun h => (htvz h).2) hz
+  have hd : (colSegment cplx segOps jcol fpanelc xsup supno lsub xlsub repfnz krep st).dense =
+      (segUpdate cplx lsub g st.lusup st.dense st.tempv).1 := by
+    unfold colSegment; rw [if_pos he]
+  have ht : (colSegment cplx segOps jcol fpanelc xsup supno lsub xlsub repfnz krep st).tempv =
+      (segUpdate cplx lsub g st.lusup st.dense st.tempv).2 := by
+    unfold colSegment; rw [if_pos he]
+  have hl : (colSegment cplx segOps jcol fpanelc xsup supno lsub xlsub repfnz krep st).lusup = st.lusup := by
+    unfold colSegment; rw [if_pos he]
+  have hx : (colSegment cplx segOps jcol fpanelc xsup supno lsub xlsub repfnz krep st).xlusup = st.xlusup := by
+    unfold colSegment; rw [if_pos he]
+  rw [hd, ht]
+  refine ⟨p1, p2, fun i hi => ?_, p4, t1, t2, hl, hx⟩
+  rw [p3 i hi]
+  congr 1
+  exact Finset.sum_congr rfl (fun j _ => mul_comm _ _)
+
+/-- the state after the first `k` iterations of the segment loop -/
+def segsUpTo (cplx segOps : Bool) (jcol nseg fpanelc : Nat) (segrep repfnz xsup supno lsub xlsub : Array Nat)
+    (st : SnodeSt K) (k : Nat) : SnodeSt K :=
+  (List.range k).foldl (fun (st : SnodeSt K) ksub =>
+    colSegment cplx segOps jcol fpanelc xsup supno lsub xlsub repfnz segrep[nseg - 1 - ksub]! st) st
+
+theorem segsUpTo_succ (cplx segOps : Bool) (jcol nseg fpanelc : Nat) (segrep repfnz xsup supno lsub xlsub : Array Nat)
+    (st : SnodeSt K) (k : Nat) :
+    segsUpTo cplx segOps jcol nseg fpanelc segrep repfnz xsup supno lsub xlsub st (k + 1) =
+      colSegment cplx segOps jcol fpanelc xsup supno lsub xlsub repfnz segrep[nseg - 1 - k]!
+        (segsUpTo cplx segOps jcol nseg fpanelc segrep repfnz xsup supno lsub xlsub st k) := by
+  unfold segsUpTo
+  rw [List.range_succ, List.foldl_append]
+  rfl
+
+theorem SegStep.frame {jcol fpanelc : Nat} {xsup supno lsub xlsub repfnz : Array Nat} {krep : Nat} {st o : SnodeSt K}
+    (h : SegStep jcol fpanelc xsup supno lsub xlsub repfnz krep st o) :
+    o.lusup = st.lusup ∧ o.xlusup = st.xlusup ∧ o.dense.size = st.dense.size ∧ o.tempv.size = st.tempv.size ∧
+    ∀ p : Nat, o.tempv[p]! = st.tempv[p]! := by
+  unfold SegStep at h
+  by_cases he : supno[jcol]! = supno[krep]!
+  · rw [if_pos he] at h; subst h; exact ⟨rfl, rfl, rfl, rfl, fun _ => rfl⟩
+  · rw [if_neg he] at h
+    obtain ⟨a, _, _, _, b, c, d, e⟩ := h
+    exact ⟨d, e, a, b, c⟩
+
+/-- **the whole segment loop**: under the per-segment hypotheses stated on the INITIAL state (they only
+involve `xlusup`, the size of `dense` and the zero prefix of `tempv`, which no iteration changes), every
+iteration performs its `SegStep` from the state its predecessor left, and `lusup`, `xlusup`, `tempv`
+come out as they went in -/
+theorem colSegments_chain (cplx segOps : Bool) (jcol nseg fpanelc : Nat) (segrep repfnz xsup supno lsub xlsub : Array Nat)
+    (st : SnodeSt K)
+    (H : ∀ k, k < nseg → SegHyp jcol fpanelc xsup supno lsub xlsub repfnz segrep[nseg - 1 - k]! st) (k : Nat) (hk : k ≤ nseg) :
+    ((segsUpTo cplx segOps jcol nseg fpanelc segrep repfnz xsup supno lsub xlsub st k).lusup = st.lusup ∧
+     (segsUpTo cplx segOps jcol nseg fpanelc segrep repfnz xsup supno lsub xlsub st k).xlusup = st.xlusup ∧
+     (segsUpTo cplx segOps jcol nseg fpanelc segrep repfnz xsup supno lsub xlsub st k).dense.size = st.dense.size ∧
+     (segsUpTo cplx segOps jcol nseg fpanelc segrep repfnz xsup supno lsub xlsub st k).tempv.size = st.tempv.size ∧
+     ∀ p : Nat, (segsUpTo cplx segOps jcol nseg fpanelc segrep repfnz xsup supno lsub xlsub st k).tempv[p]! = st.tempv[p]!) ∧
+    ∀ j, j < k → SegStep jcol fpanelc xsup supno lsub xlsub repfnz segrep[nseg - 1 - j]!
+      (segsUpTo cplx segOps jcol nseg fpanelc segrep repfnz xsup supno lsub xlsub st j)
+      (segsUpTo cplx segOps jcol nseg fpanelc segrep repfnz xsup supno lsub xlsub st (j + 1)) := by
+  induction k with
+  | zero => exact ⟨⟨rfl, rfl, rfl, rfl, fun _ => rfl⟩, fun j hj => by omega⟩
+  | succ k ih =>
+    obtain ⟨⟨i1, i2, i3, i4, i5⟩, steps⟩ := ih (by omega)
+    have hyp : SegHyp jcol fpanelc xsup supno lsub xlsub repfnz segrep[nseg - 1 - k]!
+        (segsUpTo cplx segOps jcol nseg fpanelc segrep repfnz xsup supno lsub xlsub st k) := by
+      intro hne
+      obtain ⟨ok, tv⟩ := H k (by omega) hne
+      rw [i2]
+      refine ⟨ok.of_size i3, fun h4 => ?_⟩
+      obtain ⟨a, b⟩ := tv h4
+      exact ⟨by rw [i4]; exact a, fun i hi => by rw [i5]; exact b i hi⟩
+    have step := colSegment_step cplx segOps jcol fpanelc xsup supno lsub xlsub repfnz segrep[nseg - 1 - k]! _ hyp
+    rw [← segsUpTo_succ] at step
+    obtain ⟨f1, f2, f3, f4, f5⟩ := step.frame
+    refine ⟨⟨by rw [f1, i1], by rw [f2, i2], by rw [f3, i3], by rw [f4, i4], fun p => by rw [f5, i5]⟩, fun j hj => ?_⟩
+    by_cases hjk : j = k
+    · subst hjk; exact step
+    · exact steps j (by omega)
+
+theorem colSegments_eq_segsUpTo (cplx segOps : Bool) (jcol nseg fpanelc : Nat) (segrep repfnz xsup supno lsub xlsub : Array Nat)
+    (st : SnodeSt K) :
+    colSegments cplx segOps jcol nseg fpanelc segrep repfnz xsup supno lsub xlsub st =
+      segsUpTo cplx segOps jcol nseg fpanelc segrep repfnz xsup supno lsub xlsub st nseg := rfl
+
+/-- when the panel does not start inside `jcol`'s supernode the tail IS `snode_bmod` -/
+theorem colTail_eq_snodeBmod (cplx : Bool) (jcol fpanelc : Nat) (xsup supno lsub xlsub : Array Nat) (st : SnodeSt K)
+    (h : fpanelc ≤ xsup[supno[jcol]!]!) :
+    colTail cplx jcol fpanelc xsup supno lsub xlsub st = snodeBmod cplx jcol xsup[supno[jcol]!]! lsub xlsub st := by
+  unfold colTail snodeBmod
+  simp only [Nat.max_eq_left h, Nat.sub_self, Nat.add_zero, Nat.sub_zero]
+
 end Slu.ColBmod
